@@ -118,3 +118,14 @@ Fixpoint canon (j : json) : json :=
   | JObj m => JObj (fold_right (fun kv acc => insert_kv (fst kv) (canon (snd kv)) acc) [] m)
   | _ => j
   end.
+
+Lemma jeqb_refl : forall a, jeqb a a = true.
+Proof.
+  fix IH 1. intros a. destruct a as [| x | x | x | l | m]; simpl.
+  - reflexivity.
+  - destruct x; reflexivity.
+  - apply Z.eqb_refl.
+  - apply String.eqb_refl.
+  - induction l as [|u x IHx]; [reflexivity|]. rewrite IH. exact IHx.
+  - induction m as [|[k u] x IHx]; [reflexivity|]. rewrite String.eqb_refl, IH. exact IHx.
+Qed.
